@@ -14,6 +14,32 @@ sys.path.insert(0, os.path.join(ROOT, "vx"))
 import kxgen  # noqa: E402
 from rsscan import LostAnchor  # noqa: E402
 
+# real functions each harness family puts under contract (file, fn)
+TARGETS = [
+    (r"^c13_dec128|^c13_dec_bits|^c13_dec_len", [("ciphercore-base/src/bytes.rs", "vec_u128_from_bytes")]),
+    (r"^c13_dec64|^c13_dec_bits", [("ciphercore-base/src/bytes.rs", "vec_u64_from_bytes")]),
+    (r"^c13_enc64", [("ciphercore-base/src/bytes.rs", "vec_u64_to_bytes"), ("ciphercore-base/src/bytes.rs", "vec_as_u64"), ("ciphercore-base/src/bytes.rs", "as_u64")]),
+    (r"^c13_enc_", [("ciphercore-base/src/bytes.rs", "vec_to_bytes"), ("ciphercore-base/src/bytes.rs", "vec_as_u128"), ("ciphercore-base/src/bytes.rs", "as_u128")]),
+    (r"^c13_as_casts", [("ciphercore-base/src/bytes.rs", "vec_as_u64"), ("ciphercore-base/src/bytes.rs", "vec_as_u128"), ("ciphercore-base/src/bytes.rs", "as_u64"), ("ciphercore-base/src/bytes.rs", "as_u128")]),
+    (r"^c07_ba", [("ciphercore-base/src/inline/data_structures.rs", "prefix_sums_binary_ascent")]),
+    (r"^c07_sq", [("ciphercore-base/src/inline/data_structures.rs", "prefix_sums_sqrt_trick")]),
+    (r"^c07_st", [("ciphercore-base/src/inline/data_structures.rs", "prefix_sums_segment_tree")]),
+    (r"^c07_logsum", [("ciphercore-base/src/inline/data_structures.rs", "log_depth_sum")]),
+    (r"^c07_pick", [("ciphercore-base/src/inline/inline_common.rs", "pick_prefix_sum_algorithm")]),
+    (r"^c18_inverse", [("ciphercore-base/src/evaluators/simple_evaluator.rs", "execute_inverse_permutation")]),
+    (r"^c09_slice|^c10_slice", [("ciphercore-base/src/slices.rs", "get_slice_shape"), ("ciphercore-base/src/slices.rs", "slice_index")]),
+    (r"^c15_", [("ciphercore-base/src/random.rs", "generate_u32_in_range")]),
+]
+
+
+def targets_of(h):
+    out = []
+    for pat, fns in TARGETS:
+        if re.search(pat, h):
+            out.extend(fns)
+    return out
+
+
 META_RE = re.compile(r"^// @harness\s+(\w+)\s*\|\s*([C0-9 ]+?)\s*\|\s*(complete|bounded)\s*\|\s*(.*)$")
 
 
@@ -28,6 +54,31 @@ def harness_meta():
             if m:
                 metas[m.group(1)] = dict(name=m.group(1), props=m.group(2).split(), complete=m.group(3) == "complete", bound=m.group(4), file="kx/harness/" + f, line=ln)
     return metas
+
+
+def concrete_playback(crate, env, mod, h):
+    """Kani counterexample -> concrete values -> native run of the REAL (verbatim) code in the mini crate."""
+    full = (mod + "::" + h) if mod else h
+    try:
+        p = subprocess.run(["cargo", "kani", "--harness", full, "--exact", "-Z", "concrete-playback", "--concrete-playback=print"], cwd=crate, env=env, capture_output=True, text=True, timeout=600)
+        out = p.stdout
+        m = re.search(r"```\n([\s\S]*?#\[test\][\s\S]*?)```", out)
+        if not m:
+            return dict(found=False, note="kani produced no concrete playback")
+        test = m.group(1)
+        tname = re.search(r"fn (kani_concrete_playback_\w+)", test).group(1)
+        vals = re.findall(r"// (-?\d+[^\n]*)\n\s*vec!\[([^\]]*)\]", test)
+        # append the generated test to the harness module and run it natively (cargo kani playback)
+        hf = os.path.join(crate, "src", mod + ".rs")
+        with open(hf, "a") as f:
+            f.write("\n" + test + "\n")
+        q = subprocess.run(["cargo", "kani", "playback", "-Z", "concrete-playback", "--", tname], cwd=crate, env=env, capture_output=True, text=True, timeout=600)
+        fails = ("test result: FAILED" in q.stdout) or ("panicked" in (q.stdout + q.stderr))
+        return dict(found=True, routine="kani concrete playback", input=dict(symbolic_values=[dict(value=v.strip(), bytes="[" + b.strip() + "]") for v, b in vals][:24]),
+                    observed="native run of the verbatim function violates the harness postcondition" if fails else "native run did not fail",
+                    native_run_fails=fails, replay_cmd=f"cd {crate} && cargo kani playback -Z concrete-playback -- {tname}; test $? -eq 0", test=test[:3000])
+    except Exception as ex:  # noqa: BLE001
+        return dict(found=False, note=f"concrete playback failed: {ex}")
 
 
 def run_units(units, outdir, tier, seed):
@@ -68,7 +119,7 @@ def run_units(units, outdir, tier, seed):
     outs = []
     if wanted:
         outs.append(run_one(wanted[0]))
-        with cf.ThreadPoolExecutor(max_workers=6) as ex:
+        with cf.ThreadPoolExecutor(max_workers=8) as ex:
             outs.extend(ex.map(run_one, wanted[1:]))
     for h, out, to, wall in outs:
         m = metas.get(h, dict(name=h, props=[], complete=False, bound="?", file="?", line=0))
@@ -100,13 +151,18 @@ def run_units(units, outdir, tier, seed):
                     r["errors"].append(dict(kind="kani-check", semantic=True, fn=fn, tags=[" ".join(m["props"]) + " " + h], message=desc,
                                             origins=[dict(kind="kani", file=file, line=int(line), fn=fn, primary=True, text=desc, tag=None, label=None)],
                                             rendered="\n".join(out.splitlines()[-40:]), obligation=f"km::{h}::{fn}@{os.path.basename(file)}:{line}[{desc[:80]}]"))
+                if r["errors"]:
+                    cx = concrete_playback(crate, env, os.path.splitext(os.path.basename(m["file"]))[0], h)
+                    for e in r["errors"]:
+                        e["counterexample"] = cx
+                        e["replayed"] = bool(cx and cx.get("native_run_fails"))
                 if not r["errors"]:
                     r["status"] = "undecided"
                     r["tool_errors"].append(dict(message="kani failed without a parsable failed check", rendered=out[-1500:]))
         else:
             r["tool_errors"].append(dict(message="kani did not finish (build error?)", rendered=out[-2000:]))
         r["samples"] = [dict(obligation=f"kani harness {h} ({'complete' if m['complete'] else 'bounded: ' + m['bound']})", backend="kani/cbmc", checks=r["checks_total"], failed=r["checks_failed"], wall_s=r["wall_s"])]
-        r["functions"] = []
+        r["functions"] = [dict(file=f, fn=fn, impl=None, lines=[0, 0], kind="fn", rewrites={}) for f, fn in targets_of(h)]
         results.append(r)
     return results
 
